@@ -22,6 +22,23 @@ pub fn seq_opts() -> ExecOpts {
     }
 }
 
+/// thorough runs use longer programs and schedules
+fn scaled(p: TrafficParams, t: Tier) -> TrafficParams {
+    if t == Tier::Thorough {
+        TrafficParams { max_values: p.max_values * 2, ..p }
+    } else {
+        p
+    }
+}
+
+fn sched_len(t: Tier, quick: usize) -> usize {
+    if t == Tier::Thorough {
+        quick * 3
+    } else {
+        quick
+    }
+}
+
 fn conc_opts() -> ExecOpts {
     ExecOpts::default()
 }
@@ -47,6 +64,7 @@ fn cfg_classes(sc: &Scenario, info: &mut CaseInfo) {
                 crate::rt::Policy::Walk { stay, .. } => format!("walk(stay<={})", stay),
                 crate::rt::Policy::Pct { change, .. } => format!("pct(d={})", change.len()),
                 crate::rt::Policy::Trace(_) => "trace".to_string(),
+                crate::rt::Policy::Deviate(d) => format!("systematic(deviations={})", d.len()),
             }
         ));
     }
@@ -550,11 +568,11 @@ fn c14_seq_oracle(sc: &Scenario, ex: &Execution, info: &mut CaseInfo) -> Vec<Fin
 
 // ---- C01, C02, C03, C07, C12: traffic profiles ----------------------------------------------
 
-fn delivery_strategy(_t: Tier) -> BoxedStrategy<Scenario> {
+fn delivery_strategy(t: Tier) -> BoxedStrategy<Scenario> {
     gen::traffic(
         gen::qcfg(BOTH, FutMode::Mixed, gen::cap_small(), gen::wait_any()),
-        TrafficParams { fork: 2, ..TrafficParams::default() },
-        500,
+        scaled(TrafficParams { fork: 2, ..TrafficParams::default() }, t),
+        sched_len(t, 500),
         conc_opts(),
     )
 }
@@ -568,21 +586,27 @@ fn c01_oracle(sc: &Scenario, ex: &Execution, info: &mut CaseInfo) -> Vec<Finding
     info.class(format!("some_value_refused={}", !h.refused.is_empty()));
     info.nontrivial = wrap && overlap && ex.outcome.preempt_in_call > 0;
     let mut f = orc::delivery(&h);
+    // streams added during traffic (forks): when the initial stream has a single draining consumer
+    // it is a witness of the global order and the add_stream oracle applies
+    f.extend(orc::add_stream(&h, 0));
     f.extend(keep(orc::verdict_findings(&h, false), &["Panic"]));
     f.extend(orc::interpreter_violations(&h, &["HandBackMismatch"]));
     f.extend(keep(note_stuck(&h, info), &[]));
     f
 }
 
-fn order_strategy(_t: Tier) -> BoxedStrategy<Scenario> {
+fn order_strategy(t: Tier) -> BoxedStrategy<Scenario> {
     gen::traffic(
         gen::qcfg(BOTH, FutMode::Mixed, gen::cap_small(), gen::wait_any()),
-        TrafficParams {
+        scaled(
+    TrafficParams {
             max_values: 6,
             w_try: 1,
             ..TrafficParams::default()
         },
-        500,
+            t,
+        ),
+        sched_len(t, 500),
         conc_opts(),
     )
 }
@@ -609,10 +633,11 @@ fn c02_oracle(sc: &Scenario, ex: &Execution, info: &mut CaseInfo) -> Vec<Finding
     orc::order(&h)
 }
 
-fn capacity_strategy(_t: Tier) -> BoxedStrategy<Scenario> {
+fn capacity_strategy(t: Tier) -> BoxedStrategy<Scenario> {
     gen::traffic(
         gen::qcfg(BOTH, FutMode::Mixed, gen::cap_any(), gen::wait_any()),
-        TrafficParams {
+        scaled(
+    TrafficParams {
             max_values: 10,
             w_send: 2,
             w_try: 8,
@@ -620,7 +645,9 @@ fn capacity_strategy(_t: Tier) -> BoxedStrategy<Scenario> {
             fork: 2,
             ..TrafficParams::default()
         },
-        500,
+            t,
+        ),
+        sched_len(t, 500),
         conc_opts(),
     )
 }
@@ -653,16 +680,19 @@ fn c03_oracle(sc: &Scenario, ex: &Execution, info: &mut CaseInfo) -> Vec<Finding
     f
 }
 
-fn hangup_strategy(_t: Tier) -> BoxedStrategy<Scenario> {
+fn hangup_strategy(t: Tier) -> BoxedStrategy<Scenario> {
     gen::traffic(
         gen::qcfg(BOTH, FutMode::Mixed, gen::cap_small(), gen::wait_any()),
-        TrafficParams {
+        scaled(
+    TrafficParams {
             max_values: 4,
             w_clone_tx: 3,
             max_consumers: 3,
             ..TrafficParams::default()
         },
-        500,
+            t,
+        ),
+        sched_len(t, 500),
         conc_opts(),
     )
 }
@@ -700,10 +730,11 @@ fn c07_oracle(sc: &Scenario, ex: &Execution, info: &mut CaseInfo) -> Vec<Finding
     f
 }
 
-fn population_strategy(_t: Tier) -> BoxedStrategy<Scenario> {
+fn population_strategy(t: Tier) -> BoxedStrategy<Scenario> {
     gen::traffic(
         gen::qcfg(BOTH, FutMode::Mixed, gen::cap_small(), gen::wait_any()),
-        TrafficParams {
+        scaled(
+    TrafficParams {
             max_values: 6,
             w_clone_tx: 4,
             w_clone_rx: 4,
@@ -712,7 +743,9 @@ fn population_strategy(_t: Tier) -> BoxedStrategy<Scenario> {
             fork: 1,
             ..TrafficParams::default()
         },
-        500,
+            t,
+        ),
+        sched_len(t, 500),
         conc_opts(),
     )
 }
@@ -742,6 +775,7 @@ fn c12_oracle(sc: &Scenario, ex: &Execution, info: &mut CaseInfo) -> Vec<Finding
     f.extend(orc::order(&h));
     f.extend(orc::capacity(&h));
     f.extend(orc::hangup(&h));
+    f.extend(orc::add_stream(&h, 0));
     // a hang (receiver never woken, producer refused for ever, task never notified) after a
     // population change is an observable effect of the change
     f.extend(note_stuck(&h, info));
@@ -751,10 +785,11 @@ fn c12_oracle(sc: &Scenario, ex: &Execution, info: &mut CaseInfo) -> Vec<Finding
 
 // ---- C08 -----------------------------------------------------------------------------------
 
-fn wakeup_strategy(_t: Tier) -> BoxedStrategy<Scenario> {
+fn wakeup_strategy(t: Tier) -> BoxedStrategy<Scenario> {
     gen::traffic(
         gen::qcfg(BOTH, FutMode::Never, prop_oneof![3 => Just(1u8), 3 => Just(2u8), 2 => Just(4u8), 1 => Just(3u8)].boxed(), gen::wait_any()),
-        TrafficParams {
+        scaled(
+    TrafficParams {
             max_values: 5,
             max_producers: 2,
             w_try: 1,
@@ -764,7 +799,9 @@ fn wakeup_strategy(_t: Tier) -> BoxedStrategy<Scenario> {
             blocking_only: true,
             ..TrafficParams::default()
         },
-        400,
+            t,
+        ),
+        sched_len(t, 400),
         conc_opts(),
     )
 }
@@ -808,10 +845,11 @@ fn c08_oracle(sc: &Scenario, ex: &Execution, info: &mut CaseInfo) -> Vec<Finding
 
 // ---- C04 -----------------------------------------------------------------------------------
 
-fn values_strategy(_t: Tier) -> BoxedStrategy<Scenario> {
+fn values_strategy(t: Tier) -> BoxedStrategy<Scenario> {
     gen::traffic(
         gen::qcfg(BOTH, FutMode::Mixed, prop_oneof![3 => Just(1u8), 3 => Just(2u8), 2 => Just(4u8)].boxed(), gen::wait_any()),
-        TrafficParams {
+        scaled(
+    TrafficParams {
             max_values: 10,
             max_producers: 2,
             w_send: 8,
@@ -821,7 +859,9 @@ fn values_strategy(_t: Tier) -> BoxedStrategy<Scenario> {
             leave: 2,
             ..TrafficParams::default()
         },
-        600,
+            t,
+        ),
+        sched_len(t, 600),
         conc_opts(),
     )
 }
@@ -941,10 +981,11 @@ fn c11_oracle(sc: &Scenario, ex: &Execution, info: &mut CaseInfo) -> Vec<Finding
 
 // ---- C14 -----------------------------------------------------------------------------------
 
-fn tasks_strategy(_t: Tier) -> BoxedStrategy<Scenario> {
+fn tasks_strategy(t: Tier) -> BoxedStrategy<Scenario> {
     gen::traffic(
         gen::qcfg(BOTH, FutMode::Always, prop_oneof![Just(1u8), Just(2u8)].boxed(), gen::wait_any()),
-        TrafficParams {
+        scaled(
+    TrafficParams {
             max_values: 5,
             max_producers: 2,
             sink_tasks: true,
@@ -952,7 +993,9 @@ fn tasks_strategy(_t: Tier) -> BoxedStrategy<Scenario> {
             w_clone_rx: 1,
             ..TrafficParams::default()
         },
-        500,
+            t,
+        ),
+        sched_len(t, 500),
         conc_opts(),
     )
 }
@@ -1202,7 +1245,13 @@ pub fn registry() -> Vec<PropDef> {
                 name: "delivery",
                 source: Source::Random { strategy: delivery_strategy, cases: cases_fn!(6000, 250000) },
                 oracle: c01_oracle,
-            }],
+            },
+                Part {
+                    name: "systematic",
+                    source: Source::Systematic { strategy: delivery_strategy, cases: cases_fn!(20, 30) },
+                    oracle: c01_oracle,
+                },
+            ],
             rule: "generated (configuration, per-thread programs, schedule) triples executed on the serialising scheduler; non-trivial = calls of different threads overlap AND more than N values were accepted (ring wrapped) AND at least one preemption happened inside a send/receive call; distinct = distinct hash of (scenario, realised trace)",
             assumptions: vec![SC_ASSUME, SAMPLE_ASSUME, "loss is only judged for streams that were told the end; values accepted while a stream was being created may or may not belong to it"],
         },
@@ -1212,7 +1261,13 @@ pub fn registry() -> Vec<PropDef> {
                 name: "order",
                 source: Source::Random { strategy: order_strategy, cases: cases_fn!(6000, 250000) },
                 oracle: c02_oracle,
-            }],
+            },
+                Part {
+                    name: "systematic",
+                    source: Source::Systematic { strategy: order_strategy, cases: cases_fn!(20, 30) },
+                    oracle: c02_oracle,
+                },
+            ],
             rule: "as C01; oracle = acyclicity of the precedence graph (send-before-send in real time, consecutive receives of one consumer, receive-before-receive on one stream); non-trivial = overlapping calls AND (overlapping accepted sends of two producers OR >= 2 streams) AND a preemption inside a call AND >= 2 accepted values",
             assumptions: vec![SC_ASSUME, SAMPLE_ASSUME],
         },
@@ -1222,7 +1277,13 @@ pub fn registry() -> Vec<PropDef> {
                 name: "capacity",
                 source: Source::Random { strategy: capacity_strategy, cases: cases_fn!(6000, 250000) },
                 oracle: c03_oracle,
-            }],
+            },
+                Part {
+                    name: "systematic",
+                    source: Source::Systematic { strategy: capacity_strategy, cases: cases_fn!(20, 30) },
+                    oracle: c03_oracle,
+                },
+            ],
             rule: "traffic profile with try_send bursts over requested capacities 0..9; oracle = counting bound per (accepted send, stream) plus no-loss; non-trivial = some send was refused and a later one accepted while a receive overlapped (the Full boundary was crossed under concurrency)",
             assumptions: vec![SC_ASSUME, SAMPLE_ASSUME],
         },
@@ -1232,7 +1293,13 @@ pub fn registry() -> Vec<PropDef> {
                 name: "values",
                 source: Source::Random { strategy: values_strategy, cases: cases_fn!(6000, 200000) },
                 oracle: c04_oracle,
-            }],
+            },
+                Part {
+                    name: "systematic",
+                    source: Source::Systematic { strategy: values_strategy, cases: cases_fn!(20, 30) },
+                    oracle: c04_oracle,
+                },
+            ],
             rule: "traffic with N in {1,2,4}, 1-3 consumers per stream, shared, single-consumer and view receivers; the payload's Clone and every view closure contain a scheduling point (targeted by a dedicated schedule policy) so a clone/view can be suspended while producers wrap the ring; oracle = payload self-checks (well-formed, live in the ledger, unchanged) at the start and end of every clone/view and on every delivered value; non-trivial = some clone/view was suspended while other threads ran AND the ring wrapped",
             assumptions: vec![SC_ASSUME, SAMPLE_ASSUME, "a payload write/read is one step for the scheduler: tearing inside one memcpy is not modelled"],
         },
@@ -1252,7 +1319,13 @@ pub fn registry() -> Vec<PropDef> {
                 name: "addstream",
                 source: Source::Random { strategy: addstream_strategy, cases: cases_fn!(6000, 250000) },
                 oracle: c10_oracle,
-            }],
+            },
+                Part {
+                    name: "systematic",
+                    source: Source::Systematic { strategy: addstream_strategy, cases: cases_fn!(20, 30) },
+                    oracle: c10_oracle,
+                },
+            ],
             rule: "broadcast queues (plain and futures), N in {1,2,4}: a witness stream drained by its own thread gives the global order W; another thread calls add_stream on a parent stream (sole handle, or one of 2-3 handles with siblings receiving) while 1-2 producers wrap the ring, and the new stream is drained to the end; oracle = the new stream's sequence is a contiguous suffix W[P..] with P between the parent's position before and after the call, plus the delivery/order/capacity oracles on all streams; non-trivial = a send or sibling receive overlapped an add_stream call AND the ring wrapped",
             assumptions: vec![SC_ASSUME, SAMPLE_ASSUME],
         },
@@ -1262,7 +1335,13 @@ pub fn registry() -> Vec<PropDef> {
                 name: "removal",
                 source: Source::Random { strategy: removal_strategy, cases: cases_fn!(6000, 250000) },
                 oracle: c11_oracle,
-            }],
+            },
+                Part {
+                    name: "systematic",
+                    source: Source::Systematic { strategy: removal_strategy, cases: cases_fn!(20, 30) },
+                    oracle: c11_oracle,
+                },
+            ],
             rule: "a slow stream (or extra handles of the only stream) whose 1-3 handles are dropped/unsubscribed by 1-2 threads while producers retry on a full queue and other streams drain; oracle = no producer is refused forever once every remaining stream has < N outstanding values (scheduler stuck state), unsubscribe return values, no loss and capacity bound on the remaining streams; non-trivial = a removal call overlapped a send attempt of another thread",
             assumptions: vec![SC_ASSUME, SAMPLE_ASSUME],
         },
@@ -1354,7 +1433,13 @@ pub fn registry() -> Vec<PropDef> {
                 name: "hangup",
                 source: Source::Random { strategy: hangup_strategy, cases: cases_fn!(6000, 250000) },
                 oracle: c07_oracle,
-            }],
+            },
+                Part {
+                    name: "systematic",
+                    source: Source::Systematic { strategy: hangup_strategy, cases: cases_fn!(20, 30) },
+                    oracle: c07_oracle,
+                },
+            ],
             rule: "traffic profile with cloned/dropped senders and every receive entry point; oracle = per end report: no sender alive during the whole call, no accepted value undelivered and not in flight, end stable afterwards; non-trivial = an end report overlaps the last accepted send or the last sender drop",
             assumptions: vec![SC_ASSUME, SAMPLE_ASSUME],
         },
@@ -1364,7 +1449,13 @@ pub fn registry() -> Vec<PropDef> {
                 name: "wakeup",
                 source: Source::Random { strategy: wakeup_strategy, cases: cases_fn!(6000, 250000) },
                 oracle: c08_oracle,
-            }],
+            },
+                Part {
+                    name: "systematic",
+                    source: Source::Systematic { strategy: wakeup_strategy, cases: cases_fn!(20, 30) },
+                    oracle: c08_oracle,
+                },
+            ],
             rule: "plain handles under every built-in wait strategy (busy, yielding, blocking; zero, small and default spin counts), N in {1,2,4}; consumers only use blocking entry points (recv, recv_view, blocking iterators), some leave after a few values, producers keep their sender alive until one of their values has been delivered; oracle = scheduler stuck state (deadlock, or no value-changing write for 4000 points) with a thread inside a blocking receive while its stream has an accepted undelivered value or every sender is gone; non-trivial = some blocking receive began before the value or hang-up it returned had happened",
             assumptions: vec![SC_ASSUME, SAMPLE_ASSUME, "fair scheduling: a thread that spins read-only for 40 points lets the others run; a stuck verdict needs 4000 consecutive points without any value-changing write"],
         },
@@ -1391,7 +1482,13 @@ pub fn registry() -> Vec<PropDef> {
                 name: "population",
                 source: Source::Random { strategy: population_strategy, cases: cases_fn!(6000, 250000) },
                 oracle: c12_oracle,
-            }],
+            },
+                Part {
+                    name: "systematic",
+                    source: Source::Systematic { strategy: population_strategy, cases: cases_fn!(20, 30) },
+                    oracle: c12_oracle,
+                },
+            ],
             rule: "traffic profile whose threads clone/drop senders and receivers and convert single<->multi between operations; oracles of C01+C02+C03; non-trivial = at least two handle-population changes overlap a send/receive of another thread",
             assumptions: vec![SC_ASSUME, SAMPLE_ASSUME],
         },
